@@ -343,7 +343,14 @@ def run_check(prop, tier, seed):
             round(sum(1 for d in results.values() if d.get("tok") == "1") / max(1, sum(1 for d in results.values() if d.get("modelled") == "1")), 4),
     }
     coverage.update(extra.get("coverage", {}))
-    finish(prop, tier, seed, t0, coverage, 0 if rc == 0 else 1)
+    level = "proof"
+    if not names:
+        # no theorem registered for this property (yet): what ran is the differential
+        # correspondence only
+        level = "translation_validation"
+        coverage["programs"] = len(results)
+        coverage["disagreements_checked"] = len(kbreak) + len(failing)
+    finish(prop, tier, seed, t0, coverage, 0 if rc == 0 else 1, level=level)
     return rc
 
 
